@@ -77,13 +77,15 @@ def owed (s : St) : Nat :=
 /-! ## syntactic well-formedness of programs -/
 
 def Micro.wAllowed : Micro → Bool
-  | .setActive _ | .coalesce | .setProg _ | .setErr _ | .nop | .storePF | .endSupp | .readProg
+  | .setActive _ | .coalesce | .setErr _ | .nop | .storePF | .endSupp | .readProg
   | .writeClr | .setStaged _ | .clearRet | .beginHandoff | .startRet | .notifyM | .fatal => true
+  | .setProg p => !p.isBusy
   | _ => false
 
 def Micro.mAllowed : Micro → Bool
+  | .setProg p => !p.isBusy
   | .casQ _ | .beginSend _ | .endSupp | .writeBusy _ | .storePF | .readProg | .writeClr
-  | .setProg _ | .setActive false | .setErr _ | .nop | .setStaged _ | .startRet
+  | .setActive false | .setErr _ | .nop | .setStaged _ | .startRet
   | .storeReloading false | .waitReady | .setResult | .finishFailHead | .finishSucc
   | .exitHold | .exitIdle => true
   | _ => false
